@@ -118,7 +118,8 @@ def gate_edges(q):
         if t[1] == 'app' and t[2].startswith('local::'):
             return True
         if t[1] == 'cmp':
-            return any(VAL[s][0] == 'sym' and VAL[s][1] == 'app' and 'atomic' in VAL[s][2] for s in subs(ev['val']))
+            # over atomic loads, or over the result of a pure local helper that wraps them (`self.estimated_load(i)`)
+            return any(VAL[s][0] == 'sym' and VAL[s][1] == 'app' and ('atomic' in VAL[s][2] or VAL[s][2].startswith('local::')) for s in subs(ev['val']))
         return False
     return q.edges(is_gate)
 
